@@ -1,7 +1,7 @@
 SPECIFICATION Spec
 CONSTANTS
   Inits <- @@INITS@@
-  Targets <- AllTargets
+  Targets <- @@TARGETS@@
   Statuses <- AllStatuses
   Forms <- AllForms
   Methods <- AllMethods
